@@ -30,6 +30,8 @@ Qed.
 
 (* ---------------------------------------------------------------- summary of the main path *)
 
+Opaque launch registration initialization liveness finish.
+
 Lemma merge_l p st im : c_l (merge p st im) = c_l p \/ c_l (merge p st im) = c_l im.
 Proof. unfold merge. repeat bm; simpl; auto. Qed.
 
@@ -97,7 +99,7 @@ Proof.
     (split; [reflexivity|split; [reflexivity|split; [reflexivity|]]]); try apply pc_sum_refl.
   destruct (r_pc r) as [p|]; [|left; reflexivity].
   destruct (c_del p) eqn:D; [left; reflexivity|].
-  right. exists p, (cl_fin p false). repeat split; simpl; auto. congruence.
+  right. exists p, (cl_fin p false). repeat split; simpl; auto; try congruence.
 Qed.
 
 Lemma finalize_sum k pl s v s' e q : finalize k pl s v = (s', (e, q)) ->
@@ -153,3 +155,446 @@ Proof.
         -- injection H as <- _ _. simpl. repeat split; try reflexivity. exact PS.
         -- apply (Unf _) in H; [exact H|reflexivity|reflexivity|exact PS].
 Qed.
+
+(* ---------------------------------------------------------------- the at-most-once invariant *)
+
+Definition PL (x : option claim) : Prop := x = None \/ exists p, x = Some p /\ c_l p = LTrue.
+Definition PersL (s : state) : Prop := PL (pc s).
+Definition Dead (s : state) : Prop := vw s = None \/ exists v, vw s = Some v /\ c_del v = true.
+Definition ViewOK (s : state) : Prop :=
+  exists v, vw s = Some v /\ c_del v = false /\ (c_l v = LTrue \/ c_fin v = false).
+
+Record inv1 (s : state) : Prop := mkInv1 {
+  i_a : (made s <= 1)%nat;
+  i_i : forall v, vw s = Some v -> c_l v = LTrue -> PersL s;
+  i_iii : forall v, vw s = Some v -> c_del v = true -> pc s = None \/ exists p, pc s = Some p /\ c_del p = true;
+  i_iv : vw s = None -> pc s = None;
+  i_s : made s = 1%nat -> ch s <> None \/ Dead s \/ (ViewOK s /\ PersL s) }.
+
+Lemma inv1_init : inv1 init.
+Proof.
+  constructor; simpl; try lia; try discriminate.
+  intros v Hv Hl. injection Hv as <-. discriminate.
+  intros v Hv Hl. injection Hv as <-. discriminate.
+Qed.
+
+Lemma fresh_hit k r s : r_ch r = ch s -> r_now r = now s -> entry_fresh k s = true -> ch s <> None ->
+  cache_hit k r <> None.
+Proof.
+  unfold cache_hit, entry_fresh. intros -> -> H Hn. destruct (ch s) as [[p t]|]; [|congruence].
+  rewrite H. discriminate.
+Qed.
+
+Lemma main_path_inv1 k pl s r s' e q v : main_path k pl s r = (s', (e, q)) ->
+  entry_fresh k s = true -> inv1 s ->
+  vw s = Some v -> c_del v = false ->
+  r_ch r = ch s -> r_made r = made s -> r_now r = now s ->
+  (c_l v = LTrue -> c_l (r_im r) = LTrue /\ PL (r_pc r)) ->
+  (ViewOK s -> PersL s -> c_l (r_im r) = LTrue) ->
+  (c_l (r_im r) = LTrue -> ViewOK s /\ PL (r_pc r)) ->
+  inv1 s'.
+Proof.
+  intros H Hf Inv Hv Hd H1 H2 H3 HA HB HC.
+  apply main_path_sum in H. destruct H as (Sm & Sc & Sv & _ & Sp).
+  destruct (launch_cache k pl r) as (L1 & L2 & L3).
+  assert (PLs' : c_l (r_im (launch k pl r)) = LTrue -> PL (r_pc r) -> PersL s').
+  { intros Hl [Hn|(p & Hp & Hpl)]; unfold PersL, PL.
+    - destruct Sp as [Sp|(p0 & p' & Hp0 & _)]; [left; exact Sp|congruence].
+    - destruct Sp as [Sp|(p0 & p' & Hp0 & Hp' & Hl' & _)]; [left; exact Sp|].
+      right. exists p'. split; [exact Hp'|]. rewrite Hp in Hp0. injection Hp0 as <-.
+      destruct Hl' as [->| ->]; assumption. }
+  assert (Vok : ViewOK s -> ViewOK s').
+  { intros (v0 & E0 & R0). exists v0. rewrite Sv. split; assumption. }
+  assert (NoDead : ~ Dead s).
+  { intros [D|(v0 & D & D')]; [congruence|]. rewrite Hv in D. injection D as <-. congruence. }
+  destruct (lcond_eqb (c_l (r_im r)) LTrue) eqn:El.
+  - (* Launched already True in the object read *)
+    apply lcond_eqb_eq in El. destruct (L1 El) as (Em & Ec & Eim & _). destruct (HC El) as [Hvok Hpl].
+    constructor.
+    + rewrite Sm, Em, H2. apply Inv.
+    + intros v' _ _. apply PLs'; assumption.
+    + intros v' Hv' Hd'. rewrite Sv, Hv in Hv'. injection Hv' as <-. congruence.
+    + rewrite Sv, Hv. discriminate.
+    + intros _. right. right. split; [apply Vok, Hvok|apply PLs'; assumption].
+  - assert (Nl : c_l (r_im r) <> LTrue) by (intros X; apply lcond_eqb_eq in X; congruence).
+    assert (NA : c_l v <> LTrue) by (intros X; destruct (HA X) as [Y _]; exact (Nl Y)).
+    destruct (cache_hit k r) as [p|] eqn:Eh.
+    + destruct (L2 Nl p eq_refl) as (Em & Ec & Eim & _).
+      constructor.
+      * rewrite Sm, Em, H2. apply Inv.
+      * intros v' Hv' Hl'. rewrite Sv, Hv in Hv'. injection Hv' as <-. congruence.
+      * intros v' Hv' Hd'. rewrite Sv, Hv in Hv'. injection Hv' as <-. congruence.
+      * rewrite Sv, Hv. discriminate.
+      * intros _. left. rewrite Sc. exact Ec.
+    + assert (M0 : made s = 0%nat).
+      { destruct (made s) as [|[|m]] eqn:Em; [reflexivity| |pose proof (i_a _ Inv); lia].
+        exfalso. destruct (i_s _ Inv Em) as [C|[C|[C1 C2]]].
+        - exact (fresh_hit k r s H1 H3 Hf C Eh).
+        - exact (NoDead C).
+        - exact (Nl (HB C1 C2)). }
+      destruct (L3 Nl eq_refl) as [(Em & Ec & _)|(Em & Ec & _)].
+      * constructor.
+        -- rewrite Sm, Em, H2, M0. lia.
+        -- intros v' Hv' Hl'. rewrite Sv, Hv in Hv'. injection Hv' as <-. congruence.
+        -- intros v' Hv' Hd'. rewrite Sv, Hv in Hv'. injection Hv' as <-. congruence.
+        -- rewrite Sv, Hv. discriminate.
+        -- intros _. left. rewrite Sc. exact Ec.
+      * constructor.
+        -- rewrite Sm, Em, H2, M0. lia.
+        -- intros v' Hv' Hl'. rewrite Sv, Hv in Hv'. injection Hv' as <-. congruence.
+        -- intros v' Hv' Hd'. rewrite Sv, Hv in Hv'. injection Hv' as <-. congruence.
+        -- rewrite Sv, Hv. discriminate.
+        -- rewrite Sm, Em, H2, M0. discriminate.
+Qed.
+
+Lemma reconcile_inv1 k pl s s' e q : reconcile k pl s = (s', (e, q)) ->
+  entry_fresh k s = true -> inv1 s -> inv1 s'.
+Proof.
+  unfold reconcile. intros H Hf Inv.
+  destruct (vw s) as [v|] eqn:Ev; [|injection H as <- _ _; exact Inv].
+  destruct (negb (k_managed k)); [injection H as <- _ _; exact Inv|].
+  destruct (c_del v) eqn:Ed.
+  { (* finalize *)
+    apply finalize_sum in H. destruct H as (Fm & Fc & Fv & Fp).
+    assert (D' : Dead s') by (right; exists v; rewrite Fv; split; assumption).
+    constructor.
+    - rewrite Fm. apply Inv.
+    - intros v' Hv' Hl'. rewrite Fv, Ev in Hv'. injection Hv' as <-.
+      destruct Fp as [Fp|(p & p' & Hp & Hp' & Hl & _)]; [left; exact Fp|].
+      right. exists p'. split; [exact Hp'|].
+      destruct (i_i _ Inv v Ev Hl') as [C|(p0 & Hp0 & Hl0)]; [congruence|].
+      rewrite Hp in Hp0. injection Hp0 as <-.
+      destruct Hl as [->| ->]; [exact Hl0|apply norm_l_true; exact Hl'].
+    - intros v' Hv' Hd'.
+      destruct Fp as [Fp|(p & p' & Hp & Hp' & _ & Hdd)]; [left; exact Fp|].
+      right. exists p'. split; [exact Hp'|]. apply Hdd.
+      destruct (i_iii _ Inv v Ev Ed) as [C|(p0 & Hp0 & Hd0)]; [congruence|].
+      rewrite Hp in Hp0. injection Hp0 as <-. exact Hd0.
+    - rewrite Fv, Ev. discriminate.
+    - intros _. right. left. exact D'. }
+  destruct (c_fin v) eqn:Efin.
+  - (* the cached object carries the finalizer *)
+    eapply main_path_inv1; try eassumption; try reflexivity; simpl.
+    + intros Hl. split; [exact Hl|]. exact (i_i _ Inv v Ev Hl).
+    + intros (v0 & E0 & _ & [R|R]) _; rewrite Ev in E0; injection E0 as <-; [exact R|congruence].
+    + intros Hl. split; [exists v; repeat split; auto|exact (i_i _ Inv v Ev Hl)].
+  - simpl in H. destruct (eff_wr (pc s) (f_fin pl)) eqn:Ew.
+    + destruct (pc s) as [p|] eqn:Ep; [|exfalso; unfold eff_wr in Ew; destruct (f_fin pl); discriminate].
+      eapply main_path_inv1; try eassumption; try reflexivity; simpl.
+      * intros Hl. destruct (i_i _ Inv v Ev Hl) as [C|(p0 & Hp0 & Hl0)]; [rewrite Ep in C; discriminate|].
+        rewrite Ep in Hp0. injection Hp0 as <-. split; [exact Hl0|].
+        right. exists (cl_fin p true). split; [reflexivity|exact Hl0].
+      * intros _ [C|(p0 & Hp0 & Hl0)]; [rewrite Ep in C; discriminate|].
+        rewrite Ep in Hp0. injection Hp0 as <-. exact Hl0.
+      * intros Hl. split; [exists v; repeat split; auto|].
+        right. exists (cl_fin p true). split; [reflexivity|exact Hl].
+    + injection H as <- _ _. destruct s; exact Inv.
+    + destruct s as [pc0 vw0 nd0 dp0 ch0 made0 alive0 now0]; simpl in *; destruct pc0; injection H as <- _ _; exact Inv.
+    + injection H as <- _ _. destruct s; exact Inv.
+Qed.
+
+Lemma PL_del_claim x : PL x -> PL (del_claim x).
+Proof.
+  intros [->|(p & -> & Hl)]; [left; reflexivity|]. simpl. destruct (c_fin p); [|left; reflexivity].
+  right. eexists. split; [reflexivity|exact Hl].
+Qed.
+
+Lemma inv1_ext s s' : pc s' = pc s -> vw s' = vw s -> ch s' = ch s -> made s' = made s -> inv1 s -> inv1 s'.
+Proof.
+  intros E1 E2 E3 E4 [A B C D E]. unfold PersL, Dead, ViewOK in *.
+  constructor; unfold PersL, Dead, ViewOK; rewrite ?E1, ?E2, ?E3, ?E4; assumption.
+Qed.
+
+Lemma step_inv1 k s o s' x : step k s o = (s', x) -> is_restart o = false ->
+  (match o with Rec _ => entry_fresh k s = true | _ => True end) -> inv1 s -> inv1 s'.
+Proof.
+  intros H Hr Hf Inv.
+  destruct o; try discriminate;
+    try (match goal with H : step _ _ (Rec _) = _ |- _ => idtac end;
+         destruct x as [e q]; simpl in H; eapply reconcile_inv1; eassumption);
+    simpl in H; injection H as <- _.
+  - (* Sync *)
+    constructor; simpl.
+    + apply Inv.
+    + intros v Hv Hl. right. exists v. split; assumption.
+    + intros v Hv Hd. right. exists v. split; assumption.
+    + auto.
+    + intros Hm. destruct (i_s _ Inv Hm) as [C|[C|[C1 C2]]]; [left; exact C| |].
+      * right. left. unfold Dead; simpl. destruct C as [C|(v & Hv & Hd)].
+        -- left. apply (i_iv _ Inv C).
+        -- destruct (i_iii _ Inv v Hv Hd) as [E|(p & Hp & Hdp)]; [left; exact E|right; exists p; split; assumption].
+      * unfold Dead, ViewOK, PersL, PL in *; simpl in *.
+        destruct C2 as [E|(p & Hp & Hl)]; [right; left; left; exact E|].
+        destruct (c_del p) eqn:Dp.
+        -- right. left. right. exists p. split; assumption.
+        -- right. right. split; [exists p; repeat split; auto|right; exists p; split; assumption].
+  - (* Tick *) apply (inv1_ext s); auto.
+  - (* EnvDelete *)
+    constructor; simpl.
+    + apply Inv.
+    + intros v Hv Hl. apply PL_del_claim. exact (i_i _ Inv v Hv Hl).
+    + intros v Hv Hd. destruct (pc s) as [p|]; simpl; [|left; reflexivity].
+      destruct (c_fin p); [right; eexists; split; [reflexivity|reflexivity]|left; reflexivity].
+    + intros Hv. rewrite (i_iv _ Inv Hv). reflexivity.
+    + intros Hm. destruct (i_s _ Inv Hm) as [C|[C|[C1 C2]]]; [left; exact C|right; left; exact C|].
+      right. right. split; [exact C1|apply PL_del_claim; exact C2].
+  - (* NodeAppear *)
+    destruct (made s) eqn:Em; [exact Inv|]. destruct (nd s); [exact Inv|]. apply (inv1_ext s); simpl; auto.
+  - apply (inv1_ext s); auto.
+  - apply (inv1_ext s); auto.
+  - apply (inv1_ext s); auto.
+  - apply (inv1_ext s); auto.
+  - destruct (nd s); [|exact Inv]. apply (inv1_ext s); auto.
+  - apply (inv1_ext s); auto.
+  - destruct (dp s); [exact Inv|]. apply (inv1_ext s); auto.
+Qed.
+
+(* number of successful creates in the frames = instances made *)
+Lemma reconcile_creates k pl s s' e q : reconcile k pl s = (s', (e, q)) -> made s' = (made s + creates e)%nat.
+Proof.
+  unfold reconcile. intros H.
+  destruct (vw s) as [v|]; [|injection H as <- <- _; unfold creates; simpl; lia].
+  destruct (negb (k_managed k)); [injection H as <- <- _; unfold creates; simpl; lia|].
+  destruct (c_del v).
+  { pose proof (finalize_nocreate _ _ _ _ _ _ _ H) as N. apply finalize_sum in H. destruct H as (-> & _).
+    rewrite (nocreate_creates _ N). lia. }
+  destruct (c_fin v).
+  - apply main_path_sum in H. destruct H as (-> & _ & _ & -> & _). rewrite launch_made. simpl. unfold creates; simpl; lia.
+  - simpl in H. destruct (eff_wr (pc s) (f_fin pl)).
+    + destruct (pc s).
+      * apply main_path_sum in H. destruct H as (-> & _ & _ & -> & _). rewrite launch_made. simpl. unfold creates; simpl; lia.
+      * injection H as <- <- _. unfold creates; simpl; lia.
+    + injection H as <- <- _. unfold creates; simpl; lia.
+    + destruct (pc s); injection H as <- <- _; unfold creates; simpl; lia.
+    + injection H as <- <- _. unfold creates; simpl; lia.
+Qed.
+
+Lemma step_creates k s o s' e q : step k s o = (s', (e, q)) -> made s' = (made s + creates e)%nat.
+Proof.
+  destruct o; try (simpl; intros H; injection H as <- <- _; simpl; unfold creates; simpl; try lia).
+  - apply reconcile_creates.
+  - destruct (made s) eqn:Em; [simpl; lia|]. destruct (nd s); simpl; lia.
+  - destruct (nd s); simpl; lia.
+  - destruct (dp s); simpl; lia.
+Qed.
+
+Lemma run_creates k ops : forall s, made (snd (run k s ops)) = (made s + total_creates (fst (run k s ops)))%nat.
+Proof.
+  induction ops as [|o ops IH]; intros s; simpl; [lia|].
+  destruct (step k s o) as [s' [e q]] eqn:E. specialize (IH s'). destruct (run k s' ops) as [fs sf]. simpl in *.
+  rewrite IH, (step_creates _ _ _ _ _ _ E). lia.
+Qed.
+
+Lemma run_inv1 k ops : forall s, no_restart ops -> no_expiry_from k s ops = true -> inv1 s -> inv1 (snd (run k s ops)).
+Proof.
+  induction ops as [|o ops IH]; intros s Hr He Inv; simpl; [exact Inv|].
+  destruct (step k s o) as [s' x] eqn:E. destruct x as [e q].
+  inversion Hr as [|? ? Hr1 Hr2]; subst. simpl in He. apply Bool.andb_true_iff in He. destruct He as [He1 He2].
+  rewrite E in He2. simpl in He2.
+  specialize (IH s' Hr2 He2). destruct (run k s' ops) as [fs sf]. simpl in *. apply IH.
+  eapply step_inv1; try eassumption. destruct o; try exact I. exact He1.
+Qed.
+
+(* While the controller keeps running and the launch cache entry is within its TTL whenever the
+   NodeClaim is reconciled, the provider creates at most one instance for it: for every fault
+   plan, every staleness of the cached object, every order of environment events. *)
+Lemma create_at_most_once_l k ops : no_restart ops -> no_expiry k ops = true ->
+  (total_creates (trace k ops) <= 1)%nat.
+Proof.
+  intros Hr He. unfold trace. pose proof (run_creates k ops init) as Hc. simpl in Hc.
+  pose proof (run_inv1 k ops init Hr He inv1_init) as Inv. rewrite <- Hc. apply Inv.
+Qed.
+
+(* Both hypotheses are needed. *)
+Definition okp : plan :=
+  mkPlan WOk POk WOk false HReady WOk WOk false WOk WOk WOk WOk WOk WOk WOk false WOk WOk.
+Definition status_lost : plan :=
+  mkPlan WOk POk WOk false HReady WOk WOk false WOk WOk WOk WOk WOk WOk WErr false WOk WOk.
+Definition k0 : cfg := mkCfg 3600 300 900 true false false false false.
+
+Lemma restart_duplicates : total_creates (trace k0 [Rec status_lost; Restart; Rec okp]) = 2%nat.
+Proof. vm_compute. reflexivity. Qed.
+
+Lemma expiry_duplicates : total_creates (trace k0 [Rec status_lost; Tick 3601; Rec okp]) = 2%nat /\
+                          no_expiry k0 [Rec status_lost; Tick 3601; Rec okp] = false /\
+                          total_creates (trace k0 [Rec status_lost; Tick 3600; Rec okp]) = 1%nat.
+Proof. vm_compute. repeat split; reflexivity. Qed.
+
+(* ---------------------------------------------------------------- inside one reconcile *)
+
+Transparent launch registration initialization liveness finish.
+
+(* pid-link: the object carries a provider id only together with Launched=True *)
+Definition linked (c : claim) : Prop := c_l c <> LTrue -> c_pid c = None.
+
+Lemma node_eqb_true a b : node_eqb a b = true -> a = b.
+Proof.
+  destruct a, b. unfold node_eqb; simpl. rewrite !Bool.andb_true_iff.
+  intros [[[[[[[[[H1 H2] H3] H4] H5] H6] H7] H8] H9] H10].
+  apply Nat.eqb_eq in H1.
+  apply Bool.eqb_prop in H2, H3, H4, H5, H6, H7, H8, H9, H10. subst. reflexivity.
+Qed.
+
+Lemma pool_reg_keeps k pl r : r_im (pool_reg k pl r) = r_im r /\ r_nd (pool_reg k pl r) = r_nd r.
+Proof. unfold pool_reg. repeat bm; simpl; split; reflexivity. Qed.
+
+Lemma hook_return_keeps pl r : r_im (hook_return pl r) = r_im r /\ r_nd (hook_return pl r) = r_nd r.
+Proof. unfold hook_return. repeat bm; simpl; split; reflexivity. Qed.
+
+(* Registered turns True only for a claim with a provider id whose single node is synced and has
+   lost the unregistered taint *)
+Lemma registration_justified k pl r :
+  c_r (r_im r) <> RTrue -> c_r (r_im (registration k pl r)) = RTrue ->
+  node_registered_ok (r_nd (registration k pl r)) = true /\ c_pid (r_im r) <> None.
+Proof.
+  intros Hn. unfold registration.
+  destruct (c_r (r_im r)) eqn:Er; try congruence.
+  all: destruct (c_pid (r_im r)) as [pid0|] eqn:Ep; [|simpl; congruence].
+  all: destruct (f_list_reg pl); [simpl; congruence|].
+  all: destruct (match_count r) as [|[|[|m]]]; try (simpl; congruence).
+  all: destruct (r_nd r) as [n|] eqn:En; try (simpl; congruence).
+  all: destruct (hooks_ok k pl) eqn:Eh.
+  all: try (destruct (node_eqb n (nd_sync k n)); [|destruct (f_npatch_reg pl)]; unfold err_of_wr; simpl;
+            rewrite ?(proj1 (hook_return_keeps _ _)); simpl; congruence).
+  all: destruct (node_eqb n (nd_registered (nd_sync k n))) eqn:Ee.
+  all: try (apply node_eqb_true in Ee; intros _; split; [|congruence];
+            rewrite (proj2 (pool_reg_keeps _ _ _)); unfold registered_now; simpl; rewrite En, Ee; reflexivity).
+  all: destruct (f_npatch_reg pl); unfold err_of_wr; simpl; try congruence.
+  all: intros _; split; [|congruence]; rewrite (proj2 (pool_reg_keeps _ _ _)); reflexivity.
+Qed.
+
+(* Initialized turns True only when Registered is True and the node is Ready, without startup and
+   ephemeral taints, with the requested extended resource and the initialized label *)
+Lemma initialization_justified k pl r :
+  c_i (r_im r) <> ITrue -> c_i (r_im (initialization k pl r)) = ITrue ->
+  node_initialized_ok k (r_nd (initialization k pl r)) = true /\ c_r (r_im r) = RTrue.
+Proof.
+  intros Hn. unfold initialization, set_i.
+  destruct (c_i (r_im r)) eqn:Ei; try congruence.
+  all: destruct (c_r (r_im r)) eqn:Er; try (simpl; congruence).
+  all: destruct (c_pid (r_im r)) as [pid0|]; [|simpl; congruence].
+  all: destruct (f_list_init pl); [simpl; congruence|].
+  all: destruct (match_count r) as [|[|[|m]]]; try (simpl; congruence).
+  all: destruct (r_nd r) as [n|] eqn:En; try (simpl; congruence).
+  all: destruct (n_ready n) eqn:E1; simpl; try congruence.
+  all: destruct (k_startup k && n_startup n)%bool eqn:E2; simpl; try congruence.
+  all: destruct (n_eph n || n_unreg n)%bool eqn:E3; simpl; try congruence.
+  all: destruct (k_ext k && negb (n_ext n))%bool eqn:E4; simpl; try congruence.
+  all: apply Bool.orb_false_iff in E3; destruct E3 as [E3 E3'].
+  all: assert (E5 : (negb (k_ext k) || n_ext n)%bool = true) by (destruct (k_ext k), (n_ext n); simpl in *; congruence).
+  all: destruct (n_initlabel n) eqn:E6; simpl.
+  all: try (intros _; split; [|reflexivity]; rewrite En; simpl; rewrite E1, E2, E3, E3', E5, E6; reflexivity).
+  all: destruct (f_npatch_init pl); unfold err_of_wr; simpl; try congruence.
+  all: intros _; split; [|reflexivity]; rewrite E1, E2, E3, E3', E5; reflexivity.
+Qed.
+
+(* Launched turns True only with an instance: created in this reconcile or remembered by the
+   launch cache; the provider id is set at the same time *)
+Lemma launch_justified k pl r :
+  c_l (r_im r) <> LTrue -> c_l (r_im (launch k pl r)) = LTrue ->
+  (cache_hit k r <> None \/ launch_ex k pl r = [ECreate POk]) /\ c_pid (r_im (launch k pl r)) <> None.
+Proof.
+  intros Hn Hl. destruct (launch_cache k pl r) as (_ & L2 & L3).
+  destruct (cache_hit k r) as [p|] eqn:Eh.
+  - destruct (L2 Hn p eq_refl) as (_ & _ & _ & Hp). split; [left; discriminate|exact Hp].
+  - destruct (L3 Hn eq_refl) as [(_ & _ & _ & Hp & Hx)|(_ & _ & Hc & _)]; [|congruence].
+    split; [right; exact Hx|exact Hp].
+Qed.
+
+(* the object a reconcile writes keeps the order Launched, Registered, Initialized, given that the
+   object it read has it (and carries a provider id only when Launched) *)
+Lemma launch_linked k pl r : linked (r_im r) -> linked (r_im (launch k pl r)).
+Proof.
+  intros Hl. destruct (launch_cache k pl r) as (L1 & L2 & L3). unfold linked in *.
+  destruct (lcond_eqb (c_l (r_im r)) LTrue) eqn:E.
+  - apply lcond_eqb_eq in E. destruct (L1 E) as (_ & _ & E' & _). congruence.
+  - assert (Nl : c_l (r_im r) <> LTrue) by (intros X; apply lcond_eqb_eq in X; congruence).
+    destruct (cache_hit k r) as [p|] eqn:Eh.
+    + destruct (L2 Nl p eq_refl) as (_ & _ & E' & _). congruence.
+    + destruct (L3 Nl eq_refl) as [(_ & _ & E' & _)|(_ & _ & _ & Ep & _)]; [congruence|].
+      intros _. rewrite Ep. exact (Hl Nl).
+Qed.
+
+Lemma launch_keeps_ri k pl r :
+  (c_r (r_im (launch k pl r)) = RTrue <-> c_r (r_im r) = RTrue) /\
+  (c_i (r_im (launch k pl r)) = ITrue <-> c_i (r_im r) = ITrue).
+Proof.
+  unfold launch, populate, err_of_wr. rewrite cache_hit_norm. simpl.
+  repeat bm; simpl; split; split; intros H; try exact H; try congruence;
+    destruct (c_r (r_im r)); destruct (c_i (r_im r)); simpl in *; congruence.
+Qed.
+
+Lemma subs_ordered k pl r :
+  ordered (r_im r) -> linked (r_im r) -> ordered (r_im (subs k pl r)).
+Proof.
+  intros [O1 O2] Hl. unfold subs.
+  set (r1 := launch k pl r). set (r2 := registration k pl r1). set (r3 := initialization k pl r2).
+  pose proof (launch_linked k pl r Hl) as Hl1. fold r1 in Hl1.
+  destruct (launch_keeps_ri k pl r) as [Kr Ki]. fold r1 in Kr, Ki.
+  assert (O1' : c_r (r_im r1) = RTrue -> c_l (r_im r1) = LTrue).
+  { intros H. apply Kr in H. specialize (O1 H). destruct (launch_cache k pl r) as (L1 & _). destruct (L1 O1) as (_ & _ & E & _). exact E. }
+  assert (O2' : c_i (r_im r1) = ITrue -> c_r (r_im r1) = RTrue).
+  { intros H. apply Kr, O2, Ki, H. }
+  destruct (registration_quiet k pl r1) as [_ _ _ _ _ _ Ql2 _ _ Qp2 _]. fold r2 in Ql2, Qp2.
+  destruct (initialization_quiet k pl r2) as [_ _ _ _ _ _ Ql3 _ _ _ _]. fold r3 in Ql3.
+  destruct (liveness_quiet k pl r3) as [_ _ _ _ _ _ Ql4 _ _ _ _].
+  (* liveness does not touch the conditions *)
+  assert (Lv : c_r (r_im (liveness k pl r3)) = c_r (r_im r3) /\ c_i (r_im (liveness k pl r3)) = c_i (r_im r3)).
+  { unfold liveness, live_registration, live_site, err_of_wr. repeat bm; simpl; split; congruence. }
+  destruct Lv as [Lr Li].
+  (* initialization does not touch Registered *)
+  assert (Ir : c_r (r_im r3) = c_r (r_im r2)).
+  { unfold r3, initialization, set_i, err_of_wr. repeat bm; simpl; congruence. }
+  (* registration does not touch Initialized *)
+  assert (Ri : c_i (r_im r2) = c_i (r_im r1)).
+  { unfold r2, registration, registered_now, pool_reg, hook_return, err_of_wr. repeat bm; simpl; congruence. }
+  split.
+  - rewrite Lr, Ir, Ql4, Ql3, Ql2. intros H.
+    destruct (rcond_eqb (c_r (r_im r1)) RTrue) eqn:E.
+    + apply rcond_eqb_eq in E. exact (O1' E).
+    + assert (N : c_r (r_im r1) <> RTrue) by (intros X; apply rcond_eqb_eq in X; congruence).
+      destruct (registration_justified k pl r1 N H) as [_ Hp].
+      destruct (lcond_eqb (c_l (r_im r1)) LTrue) eqn:E2; [apply lcond_eqb_eq; exact E2|].
+      exfalso. apply Hp, Hl1. intros X. apply lcond_eqb_eq in X. congruence.
+  - rewrite Li, Lr, Ir. intros H.
+    destruct (icond_eqb (c_i (r_im r2)) ITrue) eqn:E.
+    + apply icond_eqb_eq in E. rewrite Ri in E. specialize (O2' E).
+      (* registration keeps an existing True *)
+      unfold r2, registration. rewrite O2'. exact O2'.
+    + assert (N : c_i (r_im r2) <> ITrue) by (intros X; apply icond_eqb_eq in X; congruence).
+      exact (proj2 (initialization_justified k pl r2 N H)).
+Qed.
+
+(* ---------------------------------------------------------------- liveness delays vs. cache TTL *)
+
+Definition delay_le (m : Z) (q : qres) : Prop := match q with QAfter d => d <= m | _ => True end.
+
+(* every requeue delay Liveness asks for is at most the larger of its two timeouts *)
+Lemma liveness_delays k pl r :
+  0 <= r_now r -> c_rltt (r_im r) <= r_now r -> 0 <= k_lt k -> 0 <= k_rt k ->
+  exists x, r_ress (liveness k pl r) = r_ress r ++ x /\ Forall (delay_le (Z.max (k_lt k) (k_rt k))) x.
+Proof.
+  intros H1 H2 H3 H4. unfold liveness, live_registration, live_site, err_of_wr.
+  repeat bm; simpl; repeat rewrite <- app_assoc; simpl;
+    first [ solve [exists []; rewrite app_nil_r; split; [reflexivity|constructor]]
+          | solve [eexists; split; [reflexivity|repeat constructor; simpl; lia]] ].
+Qed.
+
+Section Timing.
+  Variable k : cfg.
+  (* the explicit inequality: both liveness timeouts end before the launch cache forgets *)
+  Hypothesis Hlt : 0 <= k_lt k.
+  Hypothesis Hrt : k_lt k <= k_rt k.
+  Hypothesis Httl : k_rt k < k_ttl k.
+
+  (* If the work queue honours the delay Liveness returns, the next reconcile happens while the
+     launch cache entry stored or refreshed by this reconcile is still within its TTL. *)
+  Lemma liveness_delay_lt_ttl pl r : 0 <= r_now r -> c_rltt (r_im r) <= r_now r ->
+    exists x, r_ress (liveness k pl r) = r_ress r ++ x /\
+              Forall (fun q => match q with QAfter d => d < k_ttl k | _ => True end) x.
+  Proof.
+    intros H1 H2. destruct (liveness_delays k pl r H1 H2 Hlt ltac:(lia)) as (x & Hx & Hf).
+    exists x. split; [exact Hx|]. eapply Forall_impl; [|exact Hf].
+    intros q. destruct q; simpl; auto. lia.
+  Qed.
+End Timing.
